@@ -5,6 +5,7 @@ CONSTANTS
   VarLong = 3
   Padding = FALSE
   RelFpuOK = FALSE
+  SelfKinds = {}
   Labels = {"la"}
   MaxItems = 4
   Fills = {126}
